@@ -3,7 +3,7 @@ open MtxVerif MtxVerif.C41
 
 def step (_ : Unit) (op impl : String) : Unit × DrvOut :=
   match words op with
-  | ["hs", _cert, hashH, fpH] =>
+  | ["hs", _cert, hashH, fpH, _mode, _ver] =>
     match Hex.decode hashH, Hex.decode fpH with
     | some hash, some fp =>
       let m := if accept fp hash then "ok" else "reject"
@@ -15,6 +15,7 @@ def step (_ : Unit) (op impl : String) : Unit × DrvOut :=
         else "ok"
       ((), { model := m, spec })
     | _, _ => ((), { model := "bad-op" })
+  | ["reset"] => ((), { model := "ok" })
   | ["runes"] => ((), { model := "ok", spec := if impl == "ok" then "ok" else "FAIL a non-ASCII rune lower-cases to a hex digit (model assumption broken)" })
   | _ => ((), { model := "bad-op" })
 
